@@ -51,11 +51,14 @@ def model_runs(quick):
         return [("str", cfg_text(maxn=3, maxlen=1)),
                 ("str2", cfg_text(maxn=2, maxlen=2, pseudos="P0")),
                 ("metrics", cfg_text(maxn=2, maxlen=2, metrickinds=("wlev", "lendiff"), pseudos="P0", edgemax=2)),
+                # an asymmetric metric between two collections, the first one shorter / longer / equal
+                ("metrics2", cfg_text(maxn=2, maxn2=3, maxlen=1, metrickinds=("wlev",), pseudos="P0", edgemax=3, maxedges=3)),
                 ("two", cfg_text(maxn=2, maxn2=2, maxlen=1, edgemax=2, pseudos="P3")),
                 ("sample", cfg_text(maxn=3, maxlen=2, edgemax=2, maxedges=3, pseudos="P0", maxseqs=(2,))),
                 ("tcr", cfg_text(maxn=2, maxlen=1, edgemax=2, pseudos="P0", elemkinds=("A", "B", "AB")))]
     return [("str", cfg_text(maxn=4, maxlen=2, edgemax=3, maxedges=4)),
             ("metrics", cfg_text(maxn=3, maxlen=2, metrickinds=("wlev", "lendiff"), pseudos="P3")),
+            ("metrics2", cfg_text(maxn=2, maxn2=4, maxlen=2, metrickinds=("wlev", "lendiff"), pseudos="P0", edgemax=4, maxedges=3)),
             ("two", cfg_text(maxn=3, maxn2=2, maxlen=1, edgemax=3, pseudos="P3")),
             ("two2", cfg_text(maxn=2, maxn2=2, maxlen=2, edgemax=3, pseudos="P0")),
             ("sample", cfg_text(maxn=4, maxn2=0, maxlen=2, edgemax=2, maxedges=3, pseudos="P0", maxseqs=(2, 3))),
